@@ -30,7 +30,7 @@ Ev     == T.events[l + 1]
 More   == l < Len(T.events)
 
 CfOf(t) == [obf |-> t.cf.obf, host |-> t.cf.host, mac |-> t.cf.mac, v6 |-> t.cf.v6, kws |-> Rng(t.cf.kws), pats |-> Rng(t.cf.pats),
-            regex |-> t.cf.regex, sysdom |-> t.cf.sysdom, fam |-> t.cf.fam]
+            regex |-> t.cf.regex, sysdom |-> t.cf.sysdom, fam |-> t.cf.fam, nofqdn |-> t.cf.nofqdn, dname |-> t.cf.dname]
 SpOf(s) == [nored |-> s.nored, noobf |-> Rng(s.noobf), width |-> s.width, allow |-> s.allow]     \* (s.nak: keys of the list, driver only)
 ContentOf(t) == IF t.mode = "runs"
                   THEN [s \in DOMAIN t.content |-> [sp |-> SpOf(t.content[s].sp), lines |-> t.content[s].lines]]
@@ -77,8 +77,9 @@ InjBad(ndb) == {pq \in (DOMAIN ndb) \X (DOMAIN ndb) :
 LineOK ==
     LET toks == Ev.toks  obs == Ev.obs IN
     /\ si >= 1 /\ Len(toks) = Len(obs) /\ Ev.src \in DOMAIN content[si].lines
-    /\ LeakIdx(toks, obs) = {}                      \* NoLeak
-    /\ ~PatBad(toks, obs)                           \* PatternDrops
+    \* (a C09 run judges the C09 clauses only, so that a trace goes on to its report event)
+    /\ (T.prop = "C09" \/ LeakIdx(toks, obs) = {})   \* NoLeak
+    /\ (T.prop = "C09" \/ ~PatBad(toks, obs))        \* PatternDrops
     /\ ConsBad(toks, obs) = {}                      \* Consistent
     /\ InjBad(NewDb(toks, obs)) = {}                \* Injective
 
@@ -204,8 +205,8 @@ DiagLine ==
     IF ~(si >= 1 /\ Len(toks) = Len(obs) /\ Ev.src \in DOMAIN content[si].lines) THEN "line.shape"
     ELSE IF T.prop = "C09" /\ ConsBad(toks, obs) # {} THEN DiagCons(toks, obs)
     ELSE IF T.prop = "C09" /\ InjBad(NewDb(toks, obs)) # {} THEN DiagInj(toks, obs)
-    ELSE IF LeakIdx(toks, obs) # {} THEN DiagLeak(toks, obs)
-    ELSE IF PatBad(toks, obs) THEN "PatternDrops:" \o (IF cf.regex THEN "regex" ELSE "plain")
+    ELSE IF T.prop # "C09" /\ LeakIdx(toks, obs) # {} THEN DiagLeak(toks, obs)
+    ELSE IF T.prop # "C09" /\ PatBad(toks, obs) THEN "PatternDrops:" \o (IF cf.regex THEN "regex" ELSE "plain")
     ELSE IF ConsBad(toks, obs) # {} THEN DiagCons(toks, obs)
     ELSE IF InjBad(NewDb(toks, obs)) # {} THEN DiagInj(toks, obs)
     ELSE "line.unknown"
@@ -224,7 +225,8 @@ DiagReport ==
             (IF Feat(p[1], seen) = "plain" THEN "" ELSE ":" \o Which(p))
     ELSE IF Wrong(Ev.maps) # {} THEN
         LET m == CHOOSE m \in Wrong(Ev.maps) : TRUE IN "ReportExact:" \o m.g \o ":" \o Feat(m.g, seen) \o ":conflict"
-    ELSE LET m == CHOOSE m \in Phantom(Ev.maps) : TRUE IN "NoPhantom:" \o m.g
+    ELSE LET m == CHOOSE m \in Phantom(Ev.maps) : TRUE IN
+         "NoPhantom:" \o m.g \o (IF cf.nofqdn THEN (IF cf.dname THEN ":own-name-from-the-os:display-name-set" ELSE ":own-name-from-the-os") ELSE "")
 
 DiagRun ==
     LET r == Ev IN
